@@ -106,6 +106,22 @@ impl Check for C04 {
                 vec![V::Obj(vec![("é中😀".into(), V::Str("\0a\0".into()))])],
                 vec![V::Arr((0..300).map(|i| V::Num((i as f64).to_bits())).collect())],
             ];
+            let mut fixed = fixed;
+            // nesting around any depth limit the codec may have (both sides must agree)
+            for n in [1usize, 8, 64, 126, 127, 128, 129, 130, 131, 255, 256, 257, 500, 1000] {
+                let mut a = V::Null;
+                let mut o = V::Bool(true);
+                let mut mixed = V::Undef;
+                for i in 0..n {
+                    a = V::Arr(vec![a]);
+                    o = V::Obj(vec![("p".to_string(), o)]);
+                    mixed = if i % 2 == 0 { V::Arr(vec![V::Null, mixed]) } else { V::Obj(vec![("q".to_string(), mixed)]) };
+                }
+                fixed.push(vec![a]);
+                fixed.push(vec![o]);
+                fixed.push(vec![V::Null, mixed]);
+            }
+            out.count("deep_nesting_cases", 14 * 3);
             for vs in fixed.iter() {
                 check_one(vs, out);
                 out.shape(amf::shape_hash(vs));
@@ -131,7 +147,7 @@ impl Check for C04 {
         }
     }
     fn rule(&self) -> String {
-        "sequences of 0-6 AMF0 values, nesting depth <= 6: numbers from raw 64-bit patterns (NaNs with payloads, signed zero, infinities, subnormals, integers), booleans, strings and property names with lengths in {0,1,..,300,65533..65538,70000} built from 1-4 byte UTF-8 sequences and NULs, objects of 0-8 properties, arrays of 0-300 elements; plus 18 fixed boundary cases. A case is non-trivial when it nests, carries a special number or a long string; distinct = distinct structural hash (type multiset, depth, length classes).".to_string()
+        "sequences of 0-6 AMF0 values, nesting depth <= 6: numbers from raw 64-bit patterns (NaNs with payloads, signed zero, infinities, subnormals, integers), booleans, strings and property names with lengths in {0,1,..,300,65533..65538,70000} built from 1-4 byte UTF-8 sequences and NULs, objects of 0-8 properties, arrays of 0-300 elements; plus 18 fixed boundary cases and arrays/objects/mixed containers nested {1,8,64,126..131,255..257,500,1000} deep. A case is non-trivial when it nests, carries a special number or a long string; distinct = distinct structural hash (type multiset, depth, length classes).".to_string()
     }
     fn assumptions(&self) -> Vec<String> {
         vec![
@@ -140,6 +156,6 @@ impl Check for C04 {
         ]
     }
     fn required_counters(&self, _tier: Tier) -> Vec<String> {
-        vec!["round_trips_exact".into(), "encode_refused".into(), "fixed_boundary_cases".into()]
+        vec!["round_trips_exact".into(), "encode_refused".into(), "fixed_boundary_cases".into(), "deep_nesting_cases".into()]
     }
 }
